@@ -139,6 +139,35 @@ def run(chk):
                     l.split(' ')[1], i[:140], m[:140]), {'cmd': l, 'impl': i, 'spec': m}, None, True)
         dec_lines += msg_dec
         chk.coverage['transport_messages'] = len(msg_dec)
+        # the converse (C07_rigid_messages_one_encoding): octets that are NOT an encoder's output - one octet of the encoding of a
+        # message of byte / uint32 / string fields replaced, or the encoding cut short - through both decoders.  The library may
+        # refuse more than the layout language does (reason codes outside its table, descriptions that are not UTF-8); what it
+        # accepts must be what the specification decodes, and must be composed back to the octets consumed (checked inside the
+        # sshmsgdec command of the implementation, reported as RoundTripError)
+        mut = []
+        for l, m in zip(lines, model_out):
+            if l.startswith('sshmsg ') and m.startswith('OK ') and l.split(' ')[1] in ('disc', 'unimpl', 'newkeys', 'gexreq'):
+                raw = bytes.fromhex(m[3:])
+                for _ in range(2 if chk.tier == 'quick' else 12):
+                    b = bytearray(raw)
+                    k = rng.randrange(len(b))
+                    b[k] = rng.choice([0, 1, 0x7f, 0x80, 0xff, rng.randrange(256)])
+                    if rng.random() < 0.2:
+                        b = b[:rng.randrange(1, len(b) + 1)]
+                    ctx = rng.choice(ctxs[l.split(' ')[1]])
+                    mut.append('sshmsgdec %s %s' % (ctx, bytes(b).hex() + rng.choice(['', '00', 'ff00000001'])))
+        n_acc = 0
+        for l, m in zip(mut, common.run_model(mut)):
+            i = impl.impl_line(l)
+            if i.startswith('ERR '):
+                continue
+            n_acc += 1
+            if (m != i or not i.startswith('OK ')) and nv < 16:
+                nv += 1
+                chk.violation('octets accepted as an SSH message of single-spelling fields are not decoded as the specification decodes them or not composed back verbatim: '
+                              'implementation %s, specification %s' % (i[:140], m[:140]), {'cmd': l, 'impl': i, 'spec': m}, None, True)
+        dec_lines += mut
+        chk.coverage['transport_messages_altered'] = {'inputs': len(mut), 'accepted_by_implementation': n_acc}
         # software versions of the vendors the library splits (model Ssh/Software.v): vendor alone, vendor and version, a version
         # containing the separator, a repeated separator, an empty version, another vendor, a prefix of the vendor
         sw = []
